@@ -133,11 +133,61 @@ theorem allPr_dumpsObj (cfg : DumpCfg) (fr : F → List Char) (hc : cfg.ok) (hf 
       · exact allPr_dumpsObj cfg fr hc hf r p hp
 end
 
-theorem allPr_batchFromParts (parts : List (List Char)) (h : ∀ p ∈ parts, allPr p) :
-    allPr (batchFromParts parts) := by
+/-- printable ASCII, or a tab: nothing that breaks a line -/
+def allLine (s : List Char) : Prop := ∀ c ∈ s, pr c = true ∨ c = '\t'
+
+theorem allPr.line {s : List Char} (h : allPr s) : allLine s := fun c hc => Or.inl (h c hc)
+
+theorem allLine_append {a b : List Char} (h1 : allLine a) (h2 : allLine b) : allLine (a ++ b) := by
+  intro x hx
+  rcases List.mem_append.1 hx with h | h
+  · exact h1 x h
+  · exact h2 x h
+
+theorem allLine_cons {c : Char} {s : List Char} (h1 : pr c = true ∨ c = '\t') (h2 : allLine s) :
+    allLine (c :: s) := by
+  intro x hx
+  cases hx with
+  | head => exact h1
+  | tail _ h => exact h2 x h
+
+theorem sepOK_line (sep : List Char) (h : sepOK sep = true) : allLine sep := by
+  intro c hc
+  simp only [sepOK, Bool.and_eq_true, List.all_eq_true] at h
+  have := h.1 c hc
+  simp only [Bool.or_eq_true, decide_eq_true_eq] at this
+  rcases this with (rfl | rfl) | rfl
+  · exact Or.inl (by decide)
+  · exact Or.inl (by decide)
+  · exact Or.inr rfl
+
+theorem allLine_joinWith (sep : List Char) (hsep : allLine sep) :
+    ∀ parts : List (List Char), (∀ p ∈ parts, allLine p) → allLine (joinWith sep parts)
+  | [], _ => by intro c hc; cases hc
+  | [x], h => h x (by simp)
+  | x :: y :: r, h => by
+      unfold joinWith
+      refine allLine_append (allLine_append (h x (by simp)) hsep) ?_
+      exact allLine_joinWith sep hsep (y :: r) (fun p hp => h p (by simp [hp]))
+
+theorem allLine_batchFromParts (sep : List Char) (hsep : sepOK sep = true)
+    (parts : List (List Char)) (h : ∀ p ∈ parts, allPr p) :
+    allLine (batchFromParts sep parts) := by
   unfold batchFromParts
-  exact allPr_cons (by decide) (allPr_append
-    (allPr_joinWith _ (by decide) _ h) (allPr_cons (by decide) allPr_nil))
+  refine allLine_cons (Or.inl (by decide)) (allLine_append ?_ (allLine_cons (Or.inl (by decide)) ?_))
+  · exact allLine_joinWith sep (sepOK_line sep hsep) parts (fun p hp => (h p hp).line)
+  · intro c hc; cases hc
+
+theorem allLine_no_newline {s : List Char} (h : allLine s) : '\n' ∉ s ∧ '\r' ∉ s := by
+  constructor
+  · intro hm
+    rcases h _ hm with h | h
+    · simp [pr] at h
+    · cases h
+  · intro hm
+    rcases h _ hm with h | h
+    · simp [pr] at h
+    · cases h
 
 theorem not_pr_newline : pr '\n' = false := by decide
 theorem not_pr_cr : pr '\r' = false := by decide
